@@ -8,8 +8,62 @@ def clause_filter(c, v, e):
     return v['path'].startswith('exact') and c not in ('range', 'confine', 'nop-on-condfail')
 
 
+def grid_task(task):
+    """spec -> code: the scenarios TLC enumerated in MC_BR (branch word, instruction address, Rm / Rn value, flags), executed by
+    emulate_cycle() with a real fetch from RAM at 0x0.. / 0xFFFFFF00.. (fetch stubbed only at 0x80000000, where there is no RAM)"""
+    import random
+    from .. import campaign as C
+    g = C.Group(task['name'], arch_version=7, memory_list=HI_MEM)
+    for sc in task['items']:
+        st = g.fresh()
+        C.randomize(st, random.Random(0), mode=19, thumb=sc['len'] == 16 or sc['k'].endswith(('_t1', '_t2', '_t3', '_t4')) or sc['k'] in ('cbz', 'tb'), pc=0)
+        for r in st['R']:
+            st['R'][r] = [0, 96]
+        st['R']['PC'] = sc['ia']
+        st['R']['R1usr'], st['R']['R2usr'] = sc['r1'], sc['x']
+        st['R']['LRsvc'] = [4660, 22136]
+        st['R']['R0usr'] = [23130, 42405]
+        thumb = bool(C.unlimbs(st['cpsr']) & 0x20)
+        st['cpsr'] = [sc['fl'] * 4096, (32 if thumb else 0) + 19]
+        st['sys']['SCTLR'] = [64, 0]
+        mem = st['mem']['base'][0]
+        for j in range(len(mem)):
+            mem[j] = (j * 7 + 3) % 256
+        w = (sc['w'][0] << 16) | sc['w'][1]
+        ia = C.unlimbs(sc['ia'])
+        if ia < 250:
+            C.put_instr(st, ia, w, thumb)
+            act = {'n': 'Step'}
+        elif ia >= 0xFFFFFF00:
+            C.put_instr(st, ia - 0xFFFFFF00, w, thumb, dev=1)
+            act = {'n': 'Step'}
+        else:
+            act = {'n': 'Exec', 'w': sc['w'], 'len': sc['len']}
+        g.add(st, act, meta={'gen': 'mc_br:' + sc['k'], 'word': w, 'thumb': thumb})
+    return [g]
+
+
+def _dispatch(t):
+    return t[0](t[1])
+
+
 def run(ctx):
+    from .. import campaign as C
+    from .. import tlc
     ctx.mc('MC_Cond', workers=4)
+    # the branch semantics of the specification against the property's wording (offsets as signed integers by field weights,
+    # targets = address + 8 / 4 + offset mod 2^32, link values, instruction-set selection, alignment, frame); then the same
+    # scenarios are executed by the real code
+    full = 'FALSE' if ctx.quick else 'TRUE'
+    ctx.mc('MC_BR', constants={'GEN': 'FALSE', 'FULL': full}, coverage=False, timeout=3000)
+    rs = ctx.mc('MC_BR', constants={'GEN': 'TRUE', 'FULL': full}, coverage=False, timeout=3000)
+    grid = [x for x in tlc.printed_json(rs['out']) if isinstance(x, dict) and 'ia' in x]
+    if len(grid) < 15000:
+        raise tlc.MachineryError('MC_BR printed only %d scenarios' % len(grid))
+    grid.sort(key=repr)
+    ggroups = C.parallel(_dispatch, [(grid_task, dict(name='mcbr-%d' % i, items=grid[i::16])) for i in range(16)])
+    ctx.behaviours += len(grid)
+    ctx.extra['mc_br_scenarios_replayed'] = len(grid)
     n = 6000 if ctx.quick else 150000
     cfgs = [('v4', dict(arch_version=4)), ('v5', dict(arch_version=5)), ('v6', dict(arch_version=6, memory_list=HI_MEM)),
             ('v7', dict(arch_version=7, memory_list=HI_MEM))]
@@ -21,8 +75,13 @@ def run(ctx):
         if t['enc'] == 'CBZ_T1':
             t['imm_nonzero'] = bool(((w >> 9) & 1) << 5 | ((w >> 3) & 31))
         return t
-    res = F.run_family(ctx, 'br', n, {'data_ptrs': True, 'hi': True}, clause_filter, configs=cfgs, tags_of=tags)
-    ctx.extra['rule'] = ('random B/BL/BLX/BX/CBZ/CBNZ/TBB/TBH and PC-writing ALU words over all sign/size combinations of '
+    res = F.run_family(ctx, 'br', n, {'data_ptrs': True, 'hi': True}, clause_filter, configs=cfgs, tags_of=tags, extra_groups=ggroups)
+    notexact = sum(1 for g, e, v in res if g.name.startswith('mcbr-') and not v['path'].startswith('exact:'))
+    if notexact:
+        raise tlc.MachineryError('%d MC_BR scenarios were not judged exactly' % notexact)
+    ctx.extra['rule'] = ('MC_BR (TLC): every branch encoding x affine basis of its offset fields x instruction addresses 0 / 0x40 / 0x42 / '
+                         '0x80000000 / just below 2^32: target, link value, instruction set, alignment, frame against the arithmetic wording; '
+                         'every scenario then executed by emulate_cycle(); plus random B/BL/BLX/BX/CBZ/CBNZ/TBB/TBH and PC-writing ALU words over all sign/size combinations of '
                          'the offset fields, instruction addresses in low RAM and at 0xFFFFFFxx (wrap), arch 4..7, both '
                          'instruction sets; PC advance by 2/4 is additionally checked by every exact event of C01-C03')
 
